@@ -1414,7 +1414,21 @@ def h_array_from_fn(I, st, a, t, b):
     for x in per:
         n *= len(x)
     if n > 64:
-        raise Undecided('array::from_fn generator forks too often')
+        # too many combinations: one slot at a time runs through its alternatives while every other slot holds the join of
+        # its own (an over-approximation of the product: every combination is covered by at least one of these arrays)
+        def join(vs):
+            if all(isinstance(v, Iv) for v in vs):
+                return Iv(min(v.lo for v in vs), max(v.hi for v in vs), any(v.nan for v in vs))
+            if all(v == vs[0] for v in vs):
+                return vs[0]
+            raise Undecided('array::from_fn generator forks too often')
+        hull = [join(x) for x in per]
+        alts = []
+        for i, x in enumerate(per):
+            if len(x) > 1:
+                for v in x:
+                    alts.append(tuple(hull[:i] + [v] + hull[i + 1:]))
+        return Fork(alts)
     alts = [tuple(c) for c in _it.product(*per)]
     return alts[0] if len(alts) == 1 else Fork(alts)
 
